@@ -549,6 +549,7 @@ Section Once.
   Proof.
     induction n as [|n IHn]; intros real b Hwf Hnd; [apply fits_nil|].
     destruct b as [i cs]. cbn [spec_ctx]. cbv zeta. cbn [binfo_of].
+    destruct (css_not_displayed i); [apply fits_nil|].
     set (b := Box i cs) in *.
     set (H := if real then hoisted impl_forms_ctx b else []).
     set (sub := fun d => SP n (impl_forms_ctx (binfo_of d)) d).
@@ -729,7 +730,7 @@ Section Bracket.
   Proof.
     induction n as [|n IH]; intros d Hf x Hx; [destruct Hx|].
     destruct d as [i cs]. cbn [binfo_of] in Hf. destruct (forms_false_flags i Hf) as [Ho [Ht Hc]].
-    cbn [spec_ctx] in Hx. cbv zeta in Hx. cbn [binfo_of] in Hx.
+    cbn [spec_ctx] in Hx. cbv zeta in Hx. cbn [binfo_of] in Hx. unfold css_not_displayed in Hx.
     rewrite Ho, Ht, Hc in Hx. cbn [andb wrap filter] in Hx. unfold wrap in Hx.
     rewrite zsort_nil in Hx. cbn [flat_map app] in Hx.
     apply (flow_nopush (fun d => SP n false d) IH i cs x).
@@ -737,8 +738,13 @@ Section Bracket.
     rewrite !in_app_iff in *. cbn [In] in Hx. tauto.
   Qed.
 
+  (* a box with a non-invertible transform paints nothing *)
+  Lemma spec_ctx_not_displayed n real b : css_not_displayed (binfo_of b) = true -> SP n real b = [].
+  Proof. intros Hs. destruct n; [reflexivity|]. cbn [spec_ctx]. cbv zeta. rewrite Hs. reflexivity. Qed.
+
   Lemma ctx_decomp n (real : bool) i cs :
     let b := Box i cs in
+    css_not_displayed i = false ->
     wf_shape b = true -> NoDup (ids b) ->
     let H : list box := if real then hoisted impl_forms_ctx b else [] in
     let sub := fun d => SP n (impl_forms_ctx (binfo_of d)) d in
@@ -752,7 +758,7 @@ Section Bracket.
     /\ (forall d, In d H -> In d (subs b) /\ fits (bids (terr d)) (sub d))
     /\ (forall x, In x rest -> is_push_pop x = false).
   Proof.
-    intros b Hwf Hnd H sub atomic rest.
+    intros b Hsg Hwf Hnd H sub atomic rest.
     assert (Hat : forall d, wf_shape d = true -> NoDup (ids d) -> fits (bids (own d)) (atomic d)).
     { intros d H1 H2. exact (spec_ctx_fits zsort zsort_ok n false d H1 H2). }
     assert (HH : forall d, In d H -> In d (subs b)).
@@ -768,7 +774,7 @@ Section Bracket.
               (flat_map sub H)).
       { rewrite <- !flat_map_app. apply Permutation_flat_map. rewrite !(zsort_perm zsort zsort_ok).
         exact (three_way_perm (fun d => impl_forms_ctx (binfo_of d)) (blevel css_level) H). }
-      cbn [spec_ctx]. cbv zeta. cbn [binfo_of]. fold b. fold H. fold sub. fold atomic.
+      cbn [spec_ctx]. cbv zeta. cbn [binfo_of]. change (css_not_displayed (binfo_of b)) with (css_not_displayed i). rewrite Hsg. fold b. fold H. fold sub. fold atomic.
       rewrite <- PH. rewrite !wrap_perm. subst rest. unfold PP, decor, Dd, Fl, Wd, Om, BCa, sel7.
       cbn [flat_map]. perm_apps.
     - exact (ctx_flow atomic Hat i cs Hwf Hnd).
@@ -781,11 +787,12 @@ Section Bracket.
 
   Lemma sub_infix n (real : bool) i cs d :
     let b := Box i cs in
+    css_not_displayed i = false ->
     In d (if real then hoisted impl_forms_ctx b else []) ->
     infix (SP n (impl_forms_ctx (binfo_of d)) d) (SP (S n) real b).
   Proof.
-    intros b Hd. set (H := if real then hoisted impl_forms_ctx b else []) in *.
-    cbn [spec_ctx]. cbv zeta. cbn [binfo_of]. fold b. fold H.
+    intros b Hsg Hd. set (H := if real then hoisted impl_forms_ctx b else []) in *.
+    cbn [spec_ctx]. cbv zeta. cbn [binfo_of]. change (css_not_displayed (binfo_of b)) with (css_not_displayed i). rewrite Hsg. fold b. fold H.
     set (sub := fun d => SP n (impl_forms_ctx (binfo_of d)) d).
     change (SP n (impl_forms_ctx (binfo_of d)) d) with (sub d).
     apply (Permutation_in _ (Permutation_sym
@@ -884,13 +891,14 @@ Section Bracket.
   (* the events of the territory of a hoisted box are all painted by its context *)
   Lemma hoisted_exclusive n (real : bool) i cs d X Y :
     let b := Box i cs in
+    css_not_displayed i = false ->
     wf_shape b = true -> NoDup (ids b) ->
     In d (if real then hoisted impl_forms_ctx b else []) ->
     SP (S n) real b = X ++ SP n (impl_forms_ctx (binfo_of d)) d ++ Y ->
     forall x, In x (X ++ Y) -> ~ In (ev_id x) (bids (terr d)).
   Proof.
-    intros b Hwf Hnd Hd HE x Hx Hid.
-    pose proof (ctx_decomp n real i cs Hwf Hnd) as HD. cbv zeta in HD. fold b in HD.
+    intros b Hsg Hwf Hnd Hd HE x Hx Hid.
+    pose proof (ctx_decomp n real i cs Hsg Hwf Hnd) as HD. cbv zeta in HD. fold b in HD.
     destruct HD as [P [HF [HS [Hsub _]]]].
     pose proof (spec_ctx_nodup zsort zsort_ok (S n) real b Hwf Hnd) as HN.
     rewrite HE in HN. pose proof (nodup_infix_out _ _ _ x HN Hx) as Hout.
@@ -923,7 +931,9 @@ Section Bracket.
     induction n as [|n IH]; intros real b Hwf Hnd e id l1 l2 l3 HE x Hx Hid.
     { destruct l1; discriminate. }
     destruct b as [i cs]. set (b := Box i cs) in *.
-    pose proof (ctx_decomp n real i cs Hwf Hnd) as HD. cbv zeta in HD. fold b in HD.
+    destruct (css_not_displayed i) eqn:Hsg.
+    { rewrite (spec_ctx_not_displayed (S n) real b Hsg) in HE. destruct l1; discriminate. }
+    pose proof (ctx_decomp n real i cs Hsg Hwf Hnd) as HD. cbv zeta in HD. fold b in HD.
     destruct HD as [P [HF [HS [Hsub Hnp]]]].
     pose proof (spec_ctx_nodup zsort zsort_ok (S n) real b Hwf Hnd) as HN.
     assert (Hpush : In (Push e id) (SP (S n) real b)).
@@ -933,6 +943,7 @@ Section Bracket.
     - (* a group effect of the root *)
       destruct (pp_push i e id Hpush) as [-> Hf].
       cbn [spec_ctx] in HE, HN. cbv zeta in HE, HN. cbn [binfo_of] in HE, HN.
+      change (css_not_displayed (binfo_of b)) with (css_not_displayed i) in HE, HN. rewrite Hsg in HE, HN.
       eapply root_bracket; [exact HN| | |exact Hf|exact HE|exact Hx].
       + intros y Hy. destruct (css_paints_box_decoration _); simpl in Hy; intuition.
       + intros y Hy. apply in_map_iff in Hy. destruct Hy as [d [<- _]]. eexists. reflexivity.
@@ -942,8 +953,8 @@ Section Bracket.
       destruct (Hsub d Hd) as [Hds Hfd].
       destruct (impl_forms_ctx (binfo_of d)) eqn:Ef;
         [|specialize (no_push_pseudo n d Ef _ Hpush); discriminate].
-      pose proof (sub_infix n real i cs d Hd) as [X [Y HXY]]. fold b in HXY. rewrite Ef in HXY.
-      pose proof (hoisted_exclusive n real i cs d X Y Hwf Hnd Hd) as Hex. fold b in Hex.
+      pose proof (sub_infix n real i cs d Hsg Hd) as [X [Y HXY]]. fold b in HXY. rewrite Ef in HXY.
+      pose proof (hoisted_exclusive n real i cs d X Y Hsg Hwf Hnd Hd) as Hex. fold b in Hex.
       rewrite Ef in Hex. specialize (Hex HXY).
       assert (Hterr : bids (terr d) = ids d) by (unfold terr; rewrite Ef; reflexivity).
       rewrite Hterr in Hex, Hfd.
@@ -1347,6 +1358,7 @@ Section Order.
     let H : list box := if real then hoisted impl_forms_ctx b else [] in
     let sub := fun d => SP n (impl_forms_ctx (binfo_of d)) d in
     let atomic := fun d => SP n false d in
+    css_not_displayed i = false ->
     SP (S n) real b =
     wrap EOpacity (bopac i) (bid i)
       (wrap ETransform (btrans i && css_transformable (bkind i)) (bid i)
@@ -1358,15 +1370,20 @@ Section Order.
             ++ flat_map sub (filter (fun d => negb (impl_forms_ctx (binfo_of d)) || (blevel css_level d =? 0)%Z) H)
             ++ flat_map sub (zsort (filter (fun d => impl_forms_ctx (binfo_of d) && (0 <? blevel css_level d)%Z) H)))
          ++ Om b)).
-  Proof. reflexivity. Qed.
+  Proof.
+    intros b H sub atomic Hsg. cbn [spec_ctx]. cbv zeta.
+    change (css_not_displayed (binfo_of b)) with (css_not_displayed i). rewrite Hsg. reflexivity.
+  Qed.
 
   Theorem spec_ctx_M n : forall real b, wf_shape b = true -> NoDup (ids b) -> M (SP n real b).
   Proof.
     induction n as [|n IH]; intros real b Hwf Hnd; [exact I|].
     destruct b as [i cs].
-    pose proof (ctx_decomp zsort zsort_ok n real i cs Hwf Hnd) as HD. cbv zeta in HD.
+    destruct (css_not_displayed i) eqn:Hsg.
+    { rewrite (spec_ctx_not_displayed zsort (Datatypes.S n) real (Box i cs) Hsg). exact I. }
+    pose proof (ctx_decomp zsort zsort_ok n real i cs Hsg Hwf Hnd) as HD. cbv zeta in HD.
     destruct HD as [_ [HF [HS [Hsub _]]]].
-    rewrite spec_ctx_unfold. cbv zeta.
+    rewrite (spec_ctx_unfold n real i cs Hsg). cbv zeta.
     set (b := Box i cs) in *.
     set (H := if real then hoisted impl_forms_ctx b else []) in *.
     set (sub := fun d => SP n (impl_forms_ctx (binfo_of d)) d) in *.
